@@ -16,7 +16,8 @@ EXTENDS Integers, FiniteSets, Sequences, TLC
 
 CONSTANTS
   N,            \* validators 1..N (index order = address order)
-  Power,        \* [1..N -> Nat \ {0}]
+  Power,        \* [1..N -> Nat]: voting power at height 1 (0 = not a validator)
+  NextPower,    \* [subset of 2..MaxHeight+1 -> [1..N -> Nat]]: power at later heights where it differs (validator-set changes)
   Byz,          \* SUBSET 1..N, Byzantine validators
   MaxRound,     \* rounds 0..MaxRound are explored (<= 3: the per-peer catch-up round limit never binds)
   MaxHeight,    \* heights 1..MaxHeight
@@ -67,19 +68,24 @@ PMsg(h, r, v, pol, by)  == [t |-> "P", h |-> h, r |-> r, v |-> v, pol |-> pol, b
 BMsg(h, r, v)           == [t |-> "B", h |-> h, r |-> r, v |-> v]
 VMsg(h, r, ty, by, v)   == [t |-> "V", h |-> h, r |-> r, ty |-> ty, by |-> by, v |-> v]
 
-PowerOf(S) == LET RECURSIVE P(_)
-                  P(T) == IF T = {} THEN 0 ELSE LET x == CHOOSE y \in T : TRUE IN Power[x] + P(T \ {x})
-              IN P(S)
-Total == PowerOf(Vals)
+\* the validator set in force at height h (State.Validators for the block of height h); the last NextPower entry <= h applies
+Pw(h) == LET c == {k \in DOMAIN NextPower : k <= h}
+         IN IF c = {} THEN Power ELSE NextPower[CHOOSE k \in c : \A q \in c : q <= k]
+PowerOf(h, S) == LET pw == Pw(h)
+                     RECURSIVE P(_)
+                     P(T) == IF T = {} THEN 0 ELSE LET x == CHOOSE y \in T : TRUE IN pw[x] + P(T \ {x})
+                 IN P(S)
+Total(h) == PowerOf(h, Vals)
+Member(h, i) == Pw(h)[i] > 0
 
 \* one VoteSet: [Vals -> value | Nil | None]; conflicting votes are dropped (no peer maj23 claims here)
 EmptyVS    == [i \in Vals |-> None]
 VotersOf(vs, v) == {i \in Vals : vs[i] = v}
-HasAny(vs) == 3 * PowerOf({i \in Vals : vs[i] # None}) > 2 * Total
-MajOf(vs)  == LET c == {v \in {vs[i] : i \in Vals} \ {None} : 3 * PowerOf(VotersOf(vs, v)) > 2 * Total}
+HasAny(h, vs) == 3 * PowerOf(h, {i \in Vals : vs[i] # None}) > 2 * Total(h)
+MajOf(h, vs) == LET c == {v \in {vs[i] : i \in Vals} \ {None} : 3 * PowerOf(h, VotersOf(vs, v)) > 2 * Total(h)}
               IN IF c = {} THEN None ELSE CHOOSE v \in c : TRUE
-HasMaj(vs) == MajOf(vs) # None
-HasAll(vs) == \A i \in Vals : vs[i] # None
+HasMaj(h, vs) == MajOf(h, vs) # None
+HasAll(h, vs) == \A i \in Vals : Member(h, i) => vs[i] # None
 
 EmptyRounds == [r \in Rounds |-> EmptyVS]
 
@@ -155,20 +161,21 @@ Vote(n, s, ty, v) ==
   LET st == IF ty = "pv" THEN SPrevote ELSE SPrecommit
       m  == VMsg(s.h, s.r, ty, n, v)
       s1 == IF ty = "pv" /\ s.lb # None /\ v # s.lb THEN Mark(s, "PrevoteAgainstLock")
-            ELSE IF ty = "pc" /\ v # Nil /\ MajOf(s.pv[s.r]) # v THEN Mark(s, "PrecommitWithoutOwnPolka")
+            ELSE IF ty = "pc" /\ v # Nil /\ MajOf(s.h, s.pv[s.r]) # v THEN Mark(s, "PrecommitWithoutOwnPolka")
             ELSE IF ty = "pc" /\ v # Nil /\ (s.lb # v \/ s.lr # s.r) THEN Mark(s, "PrecommitWithoutLock")
             ELSE s
-  IN IF CanSign(s1, s.h, s.r, st, <<"v", m.v>>)
+  IN IF ~Member(s.h, n) THEN s                     \* signAddVote: we are not in the validator set
+     ELSE IF CanSign(s1, s.h, s.r, st, <<"v", m.v>>)
        THEN [Signed(s1, s.h, s.r, st, <<"v", m.v>>) EXCEPT !.iq = Append(@, m)]
        ELSE s1
 
 IsProposalComplete(s) ==
   /\ s.prop.v # None /\ s.pb # None
-  /\ (s.prop.pol < 0 \/ (s.prop.pol \in Rounds /\ HasMaj(s.pv[s.prop.pol])))
+  /\ (s.prop.pol < 0 \/ (s.prop.pol \in Rounds /\ HasMaj(s.h, s.pv[s.prop.pol])))
 
 (* HeightVoteSet.POLInfo: last round <= hvs.round (= cs.Round+1) with +2/3 prevotes for a block or nil *)
 POLRound(s) ==
-  LET c == {r \in Rounds : r <= s.r + 1 /\ HasMaj(s.pv[r])}
+  LET c == {r \in Rounds : r <= s.r + 1 /\ HasMaj(s.h, s.pv[r])}
   IN IF c = {} THEN -1 ELSE CHOOSE r \in c : \A q \in c : q <= r
 
 -----------------------------------------------------------------------------------
@@ -181,10 +188,10 @@ RECURSIVE EnterNewRound(_, _, _, _), EnterPropose(_, _, _, _), EnterPrevote(_, _
 DecideProposal(n, s) ==
   LET v   == IF s.lb # None THEN s.lb ELSE HVal(s.h, s.r, n, s.inc)
       pol == POLRound(s)
-      polv == IF pol < 0 THEN None ELSE MajOf(s.pv[pol])
+      polv == IF pol < 0 THEN None ELSE MajOf(s.h, s.pv[pol])
       b   == <<"p", v, pol, polv>>                       \* what the proposal sign-bytes cover
       \* createProposalBlock fails when the previous commit is missing ("shouldn't happen")
-      can == s.lb # None \/ s.h = 1 \/ (s.lc.r >= 0 /\ HasMaj(s.lc.vs))
+      can == s.lb # None \/ s.h = 1 \/ (s.lc.r >= 0 /\ HasMaj(s.h - 1, s.lc.vs))
       s1  == IF s.lb # None /\ v # s.lb THEN Mark(s, "ProposeAgainstLock") ELSE s
   IN IF can /\ CanSign(s1, s.h, s.r, SPropose, b)
        THEN [Signed(s1, s.h, s.r, SPropose, b) EXCEPT
@@ -221,12 +228,12 @@ EnterPrevote(n, s, h, r) ==
 
 EnterPrevoteWait(n, s, h, r) ==
   IF s.h # h \/ r < s.r \/ (s.r = r /\ PrevoteWait <= s.st) THEN s
-  ELSE IF ~HasAny(s.pv[r]) THEN Mark(s, "PANIC enterPrevoteWait without +2/3 any")
+  ELSE IF ~HasAny(s.h, s.pv[r]) THEN Mark(s, "PANIC enterPrevoteWait without +2/3 any")
   ELSE [Schedule(s, h, r, PrevoteWait) EXCEPT !.r = r, !.st = PrevoteWait, !.wal = StepRec(@)]
 
 EnterPrecommit(n, s, h, r) ==
   IF s.h # h \/ r < s.r \/ (s.r = r /\ Precommit <= s.st) THEN s
-  ELSE LET maj  == MajOf(s.pv[r])
+  ELSE LET maj  == MajOf(s.h, s.pv[r])
            done(x) == [x EXCEPT !.r = r, !.st = Precommit, !.wal = StepRec(@)]
        IN IF maj = None THEN done(Vote(n, s, "pc", Nil))
           ELSE IF maj = Nil THEN done(Vote(n, [s EXCEPT !.lr = 0, !.lb = None], "pc", Nil))
@@ -242,12 +249,12 @@ EnterPrecommit(n, s, h, r) ==
 
 EnterPrecommitWait(n, s, h, r) ==
   IF s.h # h \/ r < s.r \/ (s.r = r /\ PrecommitWait <= s.st) THEN s
-  ELSE IF ~HasAny(s.pc[r]) THEN Mark(s, "PANIC enterPrecommitWait without +2/3 any")
+  ELSE IF ~HasAny(s.h, s.pc[r]) THEN Mark(s, "PANIC enterPrecommitWait without +2/3 any")
   ELSE [Schedule(s, h, r, PrecommitWait) EXCEPT !.r = r, !.st = PrecommitWait, !.wal = StepRec(@)]
 
 EnterCommit(n, s, h, cr) ==
   IF s.h # h \/ Commit <= s.st THEN s
-  ELSE LET maj == MajOf(s.pc[cr])
+  ELSE LET maj == MajOf(s.h, s.pc[cr])
            s1  == IF s.lb # None /\ s.lb = maj
                     THEN [s EXCEPT !.pb = s.lb, !.pp = [v |-> s.lb, done |-> TRUE]] ELSE s
            s2  == IF s1.pb # maj /\ s1.pp.v # maj
@@ -257,7 +264,7 @@ EnterCommit(n, s, h, cr) ==
           ELSE TryFinalizeCommit(n, s3, h)
 
 TryFinalizeCommit(n, s, h) ==
-  LET maj == MajOf(s.pc[s.cr]) IN
+  LET maj == MajOf(s.h, s.pc[s.cr]) IN
   IF maj = None \/ maj = Nil THEN s
   ELSE IF s.pb # maj THEN s
   ELSE FinalizeCommit(n, s, h)
@@ -265,9 +272,9 @@ TryFinalizeCommit(n, s, h) ==
 (* finalizeCommit: SaveBlock, ApplyBlock, state.Save, updateToState, scheduleRound0 *)
 FinalizeCommit(n, s, h) ==
   IF s.h # h \/ s.st # Commit THEN s
-  ELSE LET maj == MajOf(s.pc[s.cr])
+  ELSE LET maj == MajOf(s.h, s.pc[s.cr])
            s0  == IF ~ValidBlock(maj) THEN Mark(s, "PANIC +2/3 committed an invalid block")
-                  ELSE IF 3 * PowerOf(VotersOf(s.pc[s.cr], maj)) <= 2 * Total THEN Mark(s, "CommitWithoutQuorum")
+                  ELSE IF 3 * PowerOf(s.h, VotersOf(s.pc[s.cr], maj)) <= 2 * Total(s.h) THEN Mark(s, "CommitWithoutQuorum")
                   ELSE s
            fresh == InitNode(h + 1, [r |-> s.cr, vs |-> s.pc[s.cr], c |-> s.pcc[s.cr]])
            s1  == [fresh EXCEPT !.dec = Append(s0.dec, maj), !.seen = [r |-> s.cr, vs |-> s.pcc[s.cr], c |-> s.pcc[s.cr]],    \* MakeCommit copies VoteSet.votes
@@ -305,12 +312,14 @@ AddVote(n, s, m) ==
   IF m.h + 1 = s.h THEN
       \* straggler precommit for the previous height
       IF ~(s.st = NewHeight /\ m.ty = "pc") \/ s.lc.r < 0 THEN s
+      ELSE IF ~Member(s.h - 1, m.by) THEN s
       ELSE IF m.r # s.lc.r THEN s
       ELSE IF s.lc.vs[m.by] # None
-        THEN (IF s.lc.vs[m.by] # m.v /\ s.lc.c[m.by] # m.v /\ MajOf(s.lc.vs) = m.v
+        THEN (IF s.lc.vs[m.by] # m.v /\ s.lc.c[m.by] # m.v /\ MajOf(s.h - 1, s.lc.vs) = m.v
                 THEN [s EXCEPT !.lc.c[m.by] = m.v] ELSE s)
       ELSE [s EXCEPT !.lc.vs[m.by] = m.v, !.lc.c[m.by] = m.v]     \* (SkipTimeoutCommit = false in this model)
   ELSE IF m.h # s.h THEN s
+  ELSE IF ~Member(s.h, m.by) THEN s                 \* not in the validator set of this height
   ELSE IF m.r \notin Rounds THEN s
   ELSE IF m.r \notin s.rs /\ Cardinality(s.catch[m.by]) >= 2 THEN s     \* third unexpected round of this peer: dropped
   ELSE LET h == s.h
@@ -318,33 +327,33 @@ AddVote(n, s, m) ==
                  ELSE [s EXCEPT !.rs = @ \cup {m.r}, !.catch[m.by] = @ \cup {m.r}] IN
     IF m.ty = "pv" THEN
       IF s.pv[m.r][m.by] # None                  \* duplicate, or conflicting vote (reported, not counted)
-        THEN (IF s.pv[m.r][m.by] # m.v /\ s.pvc[m.r][m.by] # m.v /\ MajOf(s.pv[m.r]) = m.v
+        THEN (IF s.pv[m.r][m.by] # m.v /\ s.pvc[m.r][m.by] # m.v /\ MajOf(s.h, s.pv[m.r]) = m.v
                 THEN [s0 EXCEPT !.pvc[m.r][m.by] = m.v] ELSE s0)
       ELSE LET s1  == [s0 EXCEPT !.pv[m.r][m.by] = m.v, !.pvc[m.r][m.by] = m.v]
                pvs == s1.pv[m.r]
                \* unlock if these prevotes are a valid POL for something else
-               s2  == IF s1.lb # None /\ s1.lr < m.r /\ m.r <= s1.r /\ HasMaj(pvs) /\ MajOf(pvs) # s1.lb
+               s2  == IF s1.lb # None /\ s1.lr < m.r /\ m.r <= s1.r /\ HasMaj(s.h, pvs) /\ MajOf(s.h, pvs) # s1.lb
                         THEN [s1 EXCEPT !.lr = 0, !.lb = None] ELSE s1
-           IN IF s2.r <= m.r /\ HasAny(pvs)
+           IN IF s2.r <= m.r /\ HasAny(s.h, pvs)
                 THEN LET s3 == EnterNewRound(n, s2, h, m.r)
-                     IN IF HasMaj(pvs) THEN EnterPrecommit(n, s3, h, m.r)
+                     IN IF HasMaj(s.h, pvs) THEN EnterPrecommit(n, s3, h, m.r)
                         ELSE EnterPrevoteWait(n, EnterPrevote(n, s3, h, m.r), h, m.r)
               ELSE IF s2.prop.v # None /\ 0 <= s2.prop.pol /\ s2.prop.pol = m.r
                 THEN (IF IsProposalComplete(s2) THEN EnterPrevote(n, s2, h, s2.r) ELSE s2)
               ELSE s2
     ELSE
       IF s.pc[m.r][m.by] # None
-        THEN (IF s.pc[m.r][m.by] # m.v /\ s.pcc[m.r][m.by] # m.v /\ MajOf(s.pc[m.r]) = m.v
+        THEN (IF s.pc[m.r][m.by] # m.v /\ s.pcc[m.r][m.by] # m.v /\ MajOf(s.h, s.pc[m.r]) = m.v
                 THEN [s0 EXCEPT !.pcc[m.r][m.by] = m.v] ELSE s0)
       ELSE LET s1  == [s0 EXCEPT !.pc[m.r][m.by] = m.v, !.pcc[m.r][m.by] = m.v]
                pcs == s1.pc[m.r]
-               maj == MajOf(pcs)
+               maj == MajOf(s.h, pcs)
            IN IF maj # None
                 THEN IF maj = Nil
                        THEN (IF m.r + 1 \in Rounds THEN EnterNewRound(n, s1, h, m.r + 1)
                              ELSE Mark(s1, "EXHAUSTED"))          \* round bound of the model reached
                        ELSE EnterCommit(n, EnterPrecommit(n, EnterNewRound(n, s1, h, m.r), h, m.r), h, m.r)
-              ELSE IF s1.r <= m.r /\ HasAny(pcs)
+              ELSE IF s1.r <= m.r /\ HasAny(s.h, pcs)
                 THEN EnterPrecommitWait(n, EnterPrecommit(n, EnterNewRound(n, s1, h, m.r), h, m.r), h, m.r)
               ELSE s1
 
@@ -511,7 +520,7 @@ DecAppendOnly ==
 ValidityOfDecided == \A n \in Honest : \A h \in 1..Len(node[n].dec) : ValidBlock(node[n].dec[h])
 CommitHasSingleRoundQuorum ==
   \A n \in Honest : (node[n].lc.r >= 0 /\ Len(node[n].dec) > 0 /\ node[n].h = Len(node[n].dec) + 1) =>
-     3 * PowerOf(VotersOf(node[n].lc.vs, node[n].dec[Len(node[n].dec)])) > 2 * Total
+     3 * PowerOf(node[n].h - 1, VotersOf(node[n].lc.vs, node[n].dec[Len(node[n].dec)])) > 2 * Total(node[n].h - 1)
 
 \* C04 + sanity of the transcription: no rule violation and no panic branch reached
 NoRuleBroken == \A n \in Honest : node[n].bad \in {"ok", "EXHAUSTED"}
@@ -520,13 +529,13 @@ NoRuleBroken == \A n \in Honest : node[n].bad \in {"ok", "EXHAUSTED"}
 LockJustified ==
   \A n \in Honest : node[n].lb # None =>
      /\ node[n].lr \in Rounds
-     /\ MajOf(node[n].pv[node[n].lr]) = node[n].lb
+     /\ MajOf(node[n].h, node[n].pv[node[n].lr]) = node[n].lb
 UnlockOnlyOnLaterPolka ==
   [][\A n \in Honest :
        (node[n].up /\ node'[n].up /\ node[n].lb # None /\ node'[n].lb # node[n].lb /\ node'[n].h = node[n].h) =>
           \E r \in Rounds : /\ r > node[n].lr
-                            /\ HasMaj(node'[n].pv[r])
-                            /\ (MajOf(node'[n].pv[r]) # node[n].lb)]_vars
+                            /\ HasMaj(node'[n].h, node'[n].pv[r])
+                            /\ (MajOf(node'[n].h, node'[n].pv[r]) # node[n].lb)]_vars
 
 \* C03 (as seen from consensus): an honest node never makes two different votes of one kind visible for one (h,r)
 NoEquivocationSent ==
